@@ -1378,23 +1378,34 @@ class Interp:
                         owner = k.c
                 yield ("super", owner, self_), env1, st1
                 continue
-            args = []
-            kwargs = {}
-            try:
-                for a in e.args:
-                    if isinstance(a, ast.Starred):
-                        args.extend(self.ev1(a.value, env1, st1, ctx))
+            # arguments left to right; an argument whose value depends on
+            # a test (conditional expression, comparison of a lane) forks
+            items = [("*" if isinstance(a, ast.Starred) else "p",
+                      a.value if isinstance(a, ast.Starred) else a)
+                     for a in e.args] + [
+                ("**" if k.arg is None else k.arg, k.value)
+                for k in e.keywords]
+
+            def rec(i, args, kwargs, env_, st_):
+                if i == len(items):
+                    yield from self.apply(f, args, kwargs, env_, st_, ctx, e)
+                    return
+                kind, node = items[i]
+                for (v, env2, st2) in list(self.ev(node, env_, st_, ctx)):
+                    if isinstance(v, Raise):
+                        yield v, env2, st2
+                        continue
+                    a2, k2 = list(args), dict(kwargs)
+                    if kind == "p":
+                        a2.append(v)
+                    elif kind == "*":
+                        a2.extend(v)
+                    elif kind == "**":
+                        k2.update(v)
                     else:
-                        args.append(self.ev1(a, env1, st1, ctx))
-                for k in e.keywords:
-                    if k.arg is None:
-                        kwargs.update(self.ev1(k.value, env1, st1, ctx))
-                    else:
-                        kwargs[k.arg] = self.ev1(k.value, env1, st1, ctx)
-            except Raise as r:
-                yield r, env1, st1
-                continue
-            yield from self.apply(f, args, kwargs, env1, st1, ctx, e)
+                        k2[kind] = v
+                    yield from rec(i + 1, a2, k2, env2, st2)
+            yield from rec(0, [], {}, env1, st1)
 
     def apply(self, f, args, kwargs, env, st, ctx, node):
         if isinstance(f, tuple) and f and f[0] == "builtin":
